@@ -2,6 +2,7 @@ package codec
 
 import (
 	"bufio"
+	"encoding/binary"
 	"fmt"
 	"io"
 
@@ -57,6 +58,15 @@ func (c *Decoder) nextFrame() *Frame {
 	}
 	upper := int((*buf)[0])
 	size := (upper << 8) | int((*buf)[1])
+	if size == extendedSize {
+		if _, err := io.ReadFull(c.r, (*buf)[:4]); err != nil {
+			return &Frame{
+				frameType: UNKNOWN,
+				size:      0,
+			}
+		}
+		size = int(binary.BigEndian.Uint32((*buf)[:4]))
+	}
 
 	return &Frame{
 		frameType: frameType,
@@ -93,6 +103,15 @@ func (c *Decoder) peekFrame() *Frame {
 	}
 	upper := int(b[1])
 	size := (upper << 8) | int(b[2])
+	if size == extendedSize {
+		if b, err = c.r.Peek(7); err != nil {
+			return &Frame{
+				frameType: UNKNOWN,
+				size:      0,
+			}
+		}
+		size = int(binary.BigEndian.Uint32(b[3:7]))
+	}
 
 	return &Frame{
 		frameType: FrameType(b[0]),
